@@ -80,6 +80,9 @@ func c06Stage(parser, name string) refmodel.Stage {
 	panic("unknown stage " + parser + "/" + name)
 }
 
+// c06NameRe: label names (the engine allows dots inside them).
+var c06NameRe = regexp.MustCompile(`^[A-Za-z_][A-Za-z0-9_.]*$`)
+
 var c06ExprRe = regexp.MustCompile(`(\w+)="((?:[^"\\]|\\.)*)"`)
 
 // ---- nested documents and the path expressions that address them -------------------------------
@@ -263,6 +266,19 @@ func c06Check(r *vkit.Run, in c06Input) bool {
 		switch in.Kind {
 		case "garbage-after":
 			// lenient decoders may stop at the end of the value: only "kept, unchanged" is required
+			return true
+		case "badkey":
+			// a well-formed document with a key that is no label name: flagged, or exposed under some valid name -- never
+			// exposed under a name that is no label name
+			if hasErr {
+				return true
+			}
+			for k := range g.Labels {
+				if !c06NameRe.MatchString(k) {
+					fail(fmt.Sprintf("label %q exposed: not a label name, and the line is not flagged", k), "valid names or __error__")
+					return false
+				}
+			}
 			return true
 		}
 		if hasErr {
@@ -627,6 +643,8 @@ func c06Run(r *vkit.Run) {
 				// literals that are not ASCII
 				visit(c06Input{Line: v1 + " → " + v2, Pre: pre, Stage: `<a> → <b>`, Kind: "wellformed", Parser: "pattern"})
 				visit(c06Input{Line: "é" + v1 + "世" + v2 + "é", Pre: pre, Stage: `é<a>世<b>é`, Kind: "wellformed", Parser: "pattern"})
+				// angle brackets around something that is no capture name are literal text
+				visit(c06Input{Line: "<é> " + v1 + " <1> " + v2, Pre: pre, Stage: `<é> <a> <1> <b>`, Kind: "wellformed", Parser: "pattern"})
 			}
 		}
 	}
@@ -650,6 +668,21 @@ func c06Run(r *vkit.Run) {
 		}
 	}
 	visit(c06Input{Line: "not json", Stage: "unpack", Kind: "prefix", Parser: "unpack"})
+	// packed keys that are no label names (no _entry: the line stays what it is either way)
+	for _, d := range []string{`{"café":"au lait","k":"v"}`, `{"k":"v","x y":"z"}`, `{"0a":"z"}`, `{"é":"z","a":"new"}`, `{"a-b":"z"}`, `{"":"z"}`, `{"世":"z"}`} {
+		for _, pre := range []bool{false, true} {
+			visit(c06Input{Line: d, Pre: pre, Stage: "unpack", Kind: "badkey", Parser: "unpack"})
+		}
+	}
+	// field names of 63, 64, 65 and 200 bytes, requested by name
+	for _, n := range []int{63, 64, 65, 200} {
+		key := "k" + strings.Repeat("x", n-1)
+		for _, pre := range []bool{false, true} {
+			visit(c06Input{Line: `{"` + key + `":"v","a":"w"}`, Pre: pre, Stage: "json " + key, Kind: "wellformed", Parser: "json"})
+			visit(c06Input{Line: `{"a":"w","` + key + `":"v"}`, Pre: pre, Stage: "json " + key + ", a", Kind: "wellformed", Parser: "json"})
+			visit(c06Input{Line: key + "=v a=w", Pre: pre, Stage: "logfmt", Kind: "wellformed", Parser: "logfmt"})
+		}
+	}
 	r.Note("bounds", fmt.Sprintf("JSON: %d documents (<=%d fields over keys {a,b,a.b,'x y'} x 20 values incl. escapes, numbers (also integers beyond 2^53), booleans, null, nested; duplicate keys; two whitespace styles) x 8 json forms x with/without pre-existing labels, every strict prefix of a subset; path expressions: every nested document of depth <= 2 (arrays of <= 3, objects of <= 2; thorough: depth 3 over the small subtrees) with distinct leaves x every leaf path, every ordered pair of leaf paths in one stage, every inner path and every path one past the end; logfmt: %d records x 4 forms + 7 malformed; regexp: 10 patterns x up to 16 lines; pattern: 8 patterns (two with non-ASCII literals) x 81 value pairs; unpack: 30 packed entries and all their strict prefixes; sequences: 20 first records (malformed at several depths, cut, empty, other format) x 10 second records x 14 stages, the second record compared with its evaluation alone", len(docs), maxFields, len(lfDocs)))
 }
 
